@@ -25,6 +25,10 @@ RULE = (
     "NumPy itself rejects on the full array (negative integer powers, out-of-range Python ints) "
     "are rejected and counted. Non-trivial: a reflected operator, or an integer dtype with / // "
     "**, or a cols op that is not last in its chain, or a node with >=2 children, or a grandchild.")
+# the arithmetic is NumPy's: under a raising floating-point error state NumPy itself raises (0 ** -1,
+# 0 / 0), so the lazy and the eager side are compared under the default error state
+AMBIENT_EXCLUDE = {'fp': 'reader arithmetic follows the NumPy error state by design', 'warn':
+                   'NumPy emits RuntimeWarnings for the same expressions on the eager side'}
 ASSUMPTIONS = ['NumPy operator semantics (NEP 50 promotion) define "eager"']
 
 BINOPS = ['add', 'radd', 'sub', 'rsub', 'mul', 'rmul', 'truediv', 'rtruediv', 'floordiv',
@@ -176,6 +180,7 @@ def check(case):
             require(child is not lazy[parent], 'derivation returned the parent itself',
                     key='same-object')
             lazy.append(child)
+        held = []       # results already handed out: a later read must not change them
         with np.errstate(all='ignore'):
             for k, e, c in case['reads']:
                 rows = S.to_rows(e)
@@ -191,6 +196,15 @@ def check(case):
                     if isinstance(out, BaseEphysReader):
                         out = must_return(what + '[:]', lambda: out[:])
                 _same(what, out, exp, 'node-values')
+                held.append((what, out, np.array(exp, copy=True)))
+                if len(held) >= 2 and isinstance(e, dict) and e.get('t') == 'slice':
+                    # the same rows shifted by one (same shape): a recycled buffer would show
+                    a, b, _ = slice(e['a'], e['b'], e.get('step')).indices(lay['n'])
+                    if b < lay['n'] and a < b:
+                        must_return(what + ' (shifted)', lambda: lazy[k][a + 1:b + 1])
+            for what, out, exp in held:
+                _same(what + ' (result held by the caller, after later reads)', out, exp,
+                      'held-result-changed')
             # the root again, after all derivations and reads
             last = must_return('root[:]', lambda: root[:])
             same_array('root[:] after deriving', last, A, key='root-after')
